@@ -15,7 +15,7 @@ LEVEL = 'exploration'
 RULE = ('programs = (1) every term of depth<=2 of the term space at the 4 principal configurations and every depth-1 term at all 16 serial '
         'configurations, (2) the loop grammar (bodies of depth<=1 (thorough: 2), post-operations and all pairs of small closed loops incl. '
         'dependent ones, nested loops, loop-dependent chunk sizes and shapes) and (3) tuples / nested tuples sharing subterms or loops; thorough: '
-        'all 32 configurations each; quick: 10 serial configurations each (8 pass combinations, 2 with stats), all 16 serial ones for nested loops, '
+        'all 16 serial configurations each, all 32 for nested loops, tuples and loop sums into loop-shaped arrays, one forking one for every 8th other; quick: 10 serial configurations each (8 pass combinations, 2 with stats), all 16 serial ones for nested loops, '
         'tuples and loop sums into loop-shaped arrays, and one forking configuration for nested loops and loop-shaped sums, every 4th tuple and every 32nd other program; each compared with the numpy reference on the fixed valuation sets. non-trivial = distinct (program, configuration) '
         'pairs evaluated on an in-domain valuation')
 ASSUMPTIONS = ['numpy reference interpreter (vmc.terms.ref) is the meaning of a program', 'fixed dyadic float valuations; int/bool arguments exhaustive over {0,1}',
@@ -182,11 +182,13 @@ def run_shard(spec, tier, seed):
             # and loop sums into arrays whose shape comes out of another loop: all 16 serial configurations.  Forking configurations
             # (maxprocs=2) are expensive on this box (a fork costs 30 ms alone and 250 ms when 16 workers fork at once), so quick runs
             # one of them, on the first valuation, for nested loops and loop-shaped sums, every 4th tuple and every 32nd other program; thorough runs all 32 on
-            # everything.  The schedules of the forked code are C16's subject, not C02's.
+            # those families, 16 serial ones on the rest (see below).  The schedules of the forked code are C16's subject, not C02's.
             sh = LS.show(prog)
             full = fam in ('p4', 'tuples') or ('ragged' in sh and 'loopsum' in sh)
             if tier == 'thorough':
-                cfgs = ALL_CONFIGS
+                # all 16 serial configurations everywhere; all 16 forking ones for nested loops, tuples and loop-shaped sums, one for every
+                # 8th other program (61 k programs x 16 forking configurations would be 3 M forks at ~15 forks/s machine-wide)
+                cfgs = ALL_CONFIGS if full else SERIAL_CONFIGS + ([PAR_ONE] if (spec['lo'] + k) % 8 == 0 else [])
             else:
                 cfgs = SERIAL_CONFIGS if full else BASE_CONFIGS
                 if (spec['lo'] + k) % (1 if fam == 'p4' or full and fam != 'tuples' else 4 if full else 32) == 0:
